@@ -9,7 +9,23 @@ from ..runner import run_monitored
 
 
 def history(rng, net, mtu, n):
-    style = rng.choice(["session", "session", "mutated", "noise", "tos-opcode"])
+    style = rng.choice(["session", "session", "mutated", "noise", "tos-opcode", "capacity"])
+    if style == "capacity":
+        # responses filled to the brim: QueryResp at and over capacity, maximum-size Emit, large-TLV chunks
+        m = rng.randrange(len(net.mappers))
+        h = [G.f_discover(rng, net, m=m, tos=0)]
+        cap = G.cap_qresp(mtu)
+        k = min(460, rng.choice([cap - 1, cap, cap + 1, 2 * cap + 1]))
+        srcs = G.distinct_macs(rng, max(k, 1), avoid=[net.own])
+        for j in range(k):
+            h.append(W.probe(net.own, srcs[j], net.own, rng.choice(net.strangers), train=rng.random() < 0.5))
+        for _ in range(4):
+            h.append(G.f_query(rng, net, m))
+        ce = G.cap_emit(mtu)
+        h.append(G.f_emit(rng, net, m, n=rng.choice([ce, ce - 1]))[0])
+        for typ in (0x0E, 0x11, 0x13):
+            h.append(G.f_qlt(rng, net, m, typ=typ, off=rng.choice([0, 1, mtu - 34, mtu - 35])))
+        return style, h
     if style == "session":
         return style, G.session_history(rng, net, mtu, n, p_mut=0.05, p_noise=0.02)
     if style == "mutated":
